@@ -191,6 +191,7 @@ func runC06(c *Cfg) {
 			cs.Items[rg.IntN(cs.N-1)].K = 2
 			cs.Build = "builder"
 		}
+		cs.CtxLike = i%5 == 2 // failing items report a per-item timeout (an error that wraps a context error): an item failure like any other
 		if i%4 == 0 {
 			cs.ErrResult = true // failures reported as (NewErrorResult(e), nil): the error state must reach the slot as it is
 			cs.C = rg.IntN(5)
@@ -215,7 +216,10 @@ func runC06(c *Cfg) {
 			it[j].K = 1 + rg.IntN(budget+1)
 			it[j].Nil = rg.IntN(3) == 0 // a nil value is a legitimate success
 		}
-		cs := &BatchCase{Family: "stop-random", N: n, C: cc, Stop: true, SetMode: true, Budget: budget, Items: it, Shape: "results", Build: "builder", ExecStyle: []string{"result", "any"}[i%2], Gated: true, Policy: []string{"random", "last", "random", "first"}[i%4], PSeed: rg.Uint64()}
+		cs := &BatchCase{Family: "stop-random", N: n, C: cc, Stop: true, SetMode: true, Budget: budget, Items: it, Shape: "results", Build: "builder", ExecStyle: []string{"result", "any"}[i%2], Gated: true, Policy: []string{"random", "last", "random", "first"}[i%4], PSeed: rg.Uint64(), CtxLike: i%7 == 3}
+		if i%5 == 4 {
+			cs.C = rg.IntN(2) // sequential / one worker as well
+		}
 		if i%3 == 0 {
 			cs.Family = "cancel-random"
 			cs.Stop = rg.IntN(2) == 0
@@ -408,6 +412,7 @@ func genItems(rnd interface{ IntN(int) int }, n, budget int, pattern int) []Item
 		}
 		it[j].FBE = rnd.IntN(2) == 0
 		it[j].Nil = rnd.IntN(5) == 0
+		it[j].EVal = !it[j].Nil && rnd.IntN(6) == 0
 	}
 	return it
 }
@@ -460,6 +465,10 @@ func runC07(c *Cfg) {
 			cs.Items = genItems(rg, cs.N, budget, 0)
 			cs.Family = "scripts-large"
 			cs.Gated, cs.SleepUs = false, 0
+		}
+		if i%17 == 9 && cs.FB && cc >= 2 {
+			// fallbacks are gated too and held as long as possible: a failing item sitting in its fallback keeps nobody else from being processed
+			cs.Gated, cs.GateFB, cs.Policy, cs.SleepUs, cs.Family = true, true, "hold-fallbacks", 0, "scripts-fallbacks-held"
 		}
 		if i%7 == 3 && cs.Prelude == nil {
 			// the same node object was run before on a larger batch and the caller kept that run's result list
@@ -522,6 +531,19 @@ func runC02Batch(c *Cfg) {
 			cs.Prelude.Items = genItems(rg, cs.Prelude.N, pb, 0)
 			cs.Family = "c02-batch-reconfigured"
 		}
+		if i%16 == 5 {
+			// a fallback is installed and the context is cancelled while item 0 sits in its (hour-long) retry wait after a
+			// failed attempt: fewer than N attempts were made, so no fallback is owed
+			cs = &BatchCase{Family: "c02-batch-cancel-in-wait-with-fallback", N: n, C: cc, Budget: 2 + rg.IntN(3), FB: true, Shape: []string{"results", "any"}[rg.IntN(2)], ExecStyle: []string{"result", "any"}[rg.IntN(2)], PSeed: rg.Uint64(), WaitHour: true,
+				Cancel: &CancelSpec{Kind: "cancel", Item: 0, Attempt: 1, DuringWait: true}}
+			cs.Build = map[string]string{"results": "options", "any": "compose"}[cs.Shape]
+			cs.Items = make([]ItemScript, n)
+			for j := range cs.Items {
+				cs.Items[j].K = 1
+			}
+			cs.Items[0].K = cs.Budget + 1
+			return cs
+		}
 		if i%3 == 0 && cc >= 2 {
 			// stop mode, gated, adversarial release order: an item is mid-retry while another one fails for good
 			cs.Stop, cs.SetMode, cs.Gated, cs.Policy, cs.SleepUs = true, true, true, "random", 0
@@ -574,6 +596,9 @@ func runC09(c *Cfg) {
 						fb := false
 						for j := range it {
 							it[j].K = 1
+						}
+						for j := 0; j < f; j++ {
+							it[j].Nil = (j+idx)%3 == 0 // earlier items may legitimately succeed with a nil value: still successes after the stop
 						}
 						switch variant {
 						case 0:
@@ -840,6 +865,28 @@ func runC11(c *Cfg) {
 				cx = append(cx, &BatchCase{Family: "large-pre", N: n, C: cc, Stop: stop, SetMode: true, Budget: 1, Items: it, Shape: "results", Build: "builder", ExecStyle: "result", Gated: true, Policy: "first", Cancel: &CancelSpec{Kind: "pre-cancel"}})
 				cx = append(cx, &BatchCase{Family: "large-in-exec", N: n, C: cc, Stop: stop, SetMode: true, Budget: 1, Items: it, Shape: "results", Build: "builder", ExecStyle: "any", Gated: true, Policy: "holdfail", Cancel: &CancelSpec{Kind: "cancel", Item: 2, Attempt: 1}})
 			}
+		}
+	}
+	for _, sh := range []string{"any", "ints", "strings", "ptrs", "maps", "named"} { // prep given as a constructor option, items of other shapes
+		for _, cc := range []int{0, 2} {
+			for _, n := range []int{1, 5} {
+				it := make([]ItemScript, n)
+				for j := range it {
+					it[j].K = 1
+				}
+				cx = append(cx, &BatchCase{Family: "pre-other-shapes", N: n, C: cc, SetMode: true, Stop: cc == 2, Budget: 1, Items: it, Shape: sh, Build: "compose", ExecStyle: []string{"result", "any"}[n%2], Gated: true, Policy: "first", Cancel: &CancelSpec{Kind: []string{"pre-cancel", "pre-deadline"}[n%2]}})
+				cx = append(cx, &BatchCase{Family: "in-prep-other-shapes", N: n, C: cc, SetMode: true, Stop: cc == 0, Budget: 1, Items: it, Shape: sh, Build: "compose", ExecStyle: []string{"any", "result"}[n%2], Gated: true, Policy: "first", Cancel: &CancelSpec{Kind: "cancel", InPrep: true}})
+			}
+		}
+	}
+	for _, cc := range []int{0, 1, 3} { // cancel() while items sit in an hour-long wait, on a context that also carries a far deadline
+		for _, n := range []int{1, 3} {
+			it := make([]ItemScript, n)
+			for j := range it {
+				it[j].K = 1
+			}
+			it[0].K = 3
+			cx = append(cx, &BatchCase{Family: "cancel-during-hour-wait-far-deadline", N: n, C: cc, Budget: 2, Items: it, Shape: "results", Build: "builder", ExecStyle: "result", WaitHour: true, Cancel: &CancelSpec{Kind: "cancel-far-deadline", Item: 0, Attempt: 1, DuringWait: true}})
 		}
 	}
 	for _, cc := range []int{0, 1, 3} {
